@@ -2,6 +2,7 @@
 package checks
 
 import (
+	"crypto/md5"
 	"encoding/json"
 	"fmt"
 	"sync/atomic"
@@ -46,3 +47,6 @@ func observeEq(t geom.T, want *ref.G, o ref.EqualOpt) string {
 }
 
 var _ = engine.Guard
+
+// hash128 is a 128-bit digest of a canonical state key (collisions are negligible at 10^8 states).
+func hash128(s string) [16]byte { return md5.Sum([]byte(s)) }
